@@ -116,7 +116,88 @@ def one_exec(cfg, fail, corrupt):
     return viol, info
 
 
+# ---- multi-step histories with a destination index -------------------------------------------
+
+
+def hist_exec(cfg):
+    """push T1 (closed) with a destination index; objects vanish from the destination; then a second request."""
+    import os
+
+    trees = ["T1", "T2"]
+    viol = []
+    with World() as w:
+        xw = XWorld(w, trees, dest_kind=cfg["dest"], use_index=True)
+        try:
+            xw.transfer(xw.request(["T1"]), plan=Plan())
+            for o in cfg["deleted"]:
+                p = xw.dest.oid_to_path(o)
+                if os.path.exists(p):
+                    os.chmod(p, 0o644)
+                    os.unlink(p)
+            files2 = files_of_trees(["T2"])
+            req = {"T2-closed": {hi(TREE_OID["T2"])} | {hi(o) for o in files2},
+                   "T2+T1-closed": {hi(TREE_OID["T2"]), hi(TREE_OID["T1"])} | {hi(o) for o in files_of_trees(trees)},
+                   "files-of-T1": {hi(o) for o in files_of_trees(["T1"])}}[cfg["second"]]
+            universe = {h.value for h in req}
+            src_has = set(objects_only(store_snapshot(xw.src.path)))
+            before = set(objects_only(store_snapshot(xw.dest.path)))
+            plan = Plan(fail_oids=cfg["fail"])
+            try:
+                res = xw.transfer(req, plan=plan)
+            except Exception as e:  # noqa: BLE001
+                return [(f"second-transfer-raises-{type(e).__name__}", repr(e))]
+            after = objects_only(store_snapshot(xw.dest.path))
+            tr = {h.value for h in res.transferred}
+            fl = {h.value for h in res.failed}
+            for o in sorted(tr):
+                if o not in after:
+                    viol.append((f"stale-index/{cfg['second']}/reported-transferred-but-absent", name_of(o)))
+            for o in sorted(universe):
+                if o not in after and o not in fl and o in src_has:
+                    viol.append((f"stale-index/{cfg['second']}/absent-object-neither-failed-nor-missing",
+                                 f"{name_of(o)} after deleting {[name_of(d) for d in cfg['deleted']]} second={cfg['second']}"))
+            for o in sorted(before & universe):
+                if o in tr or o in fl:
+                    viol.append((f"stale-index/{cfg['second']}/already-present-object-reported", name_of(o)))
+        finally:
+            xw.close()
+    return viol
+
+
+def hist_case(case):
+    res = {"n": 0, "trans": 0, "states": [], "outcomes": set(), "nontrivial": set(), "viol": [],
+           "vac": {"stale_index_histories": 0}}
+    sigs = set()
+    t1 = files_of_trees(["T1"]) + [TREE_OID["T1"]]
+    for deleted in subsets(t1):
+        if any(not o.endswith(".dir") for o in deleted) and TREE_OID["T1"] not in deleted:
+            # the destination must stay closed: an index assumes (by design) that an existing directory
+            # object has its files, so a file may only vanish together with the directory listing it
+            continue
+        for second in ("T2-closed", "T2+T1-closed", "files-of-T1"):
+            for fail in ([], [files_of_trees(["T2"])[-1]]):
+                cfg = {"dest": case["dest"], "deleted": list(deleted), "second": second, "fail": fail}
+                viol = hist_exec(cfg)
+                res["n"] += 1
+                res["trans"] += 2
+                res["vac"]["stale_index_histories"] += 1
+                d = digest_obj(cfg)
+                res["states"].append(d)
+                if deleted:
+                    res["nontrivial"].add(d)
+                res["outcomes"].add(repr(sorted(v[0] for v in viol)))
+                for sig, detail in viol:
+                    if sig not in sigs:
+                        sigs.add(sig)
+                        res["viol"].append((sig, detail, dict(cfg, part="hist")))
+    res["outcomes"] = sorted(res["outcomes"])
+    res["nontrivial"] = sorted(res["nontrivial"])
+    return res
+
+
 def run_case(case):
+    if case.get("part") == "hist":
+        return hist_case(case)
     cfg = case["cfg"]
     trees = SCENARIOS[cfg["scenario"]]
     files = files_of_trees(trees)
@@ -159,6 +240,8 @@ def run_case(case):
 
 
 def replay(case):
+    if case.get("part") == "hist":
+        return hist_exec({k: v for k, v in case.items() if k != "part"})
     return one_exec(case["cfg"], case["fail"], case["corrupt"])[0]
 
 
@@ -185,7 +268,7 @@ def run(ctx):
         "E3: tree sets x request shape {files, shallow dir, closed, expanded} x source {complete, a file "
         "missing, a directory object missing} x destination {empty, partial, complete} x both destination "
         "classes x every subset of failing uploads; under verify additionally every subset of corrupt source "
-        "files (x <= 1 failing upload); non-trivial = a fault, a corrupt source or an incomplete source"
+        "files (x <= 1 failing upload); histories push T1 with a destination index -> every subset of its objects vanishes from the destination -> second request (T2 closed / T1+T2 closed / files of T1) with and without a failing upload; non-trivial = a fault, a corrupt source or an incomplete source"
     )
     ctx.bound = {"scenarios": ["one", "sharing", "twopaths"] + (["three", "subset", "disjoint"] if ctx.tier == "thorough" else []),
                  "max_objects": 6}
@@ -195,6 +278,8 @@ def run(ctx):
         "introduced under verify=True, as the property's quantifier says",
         "an expanded request needs its directory object to be loadable from the source",
     ]
-    ctx.require("faults_fired", "verify_corrupt_runs", "both_sides_missing_runs", "already_present_runs")
+    ctx.require("faults_fired", "verify_corrupt_runs", "both_sides_missing_runs", "already_present_runs",
+                "stale_index_histories")
     cs = [{"cfg": c} for c in configs(ctx.tier)]
+    cs += [{"part": "hist", "dest": d} for d in ("base", "local")]
     ctx.run_cases("run_case", cs, chunksize=1, det=4)
